@@ -268,6 +268,18 @@ def h_drift(shape):
                                   protocol=op[2] if len(op) > 2 else "min-delay")
                 sl = cs.slots[-1]
                 expect = det_off * (sl.ti - mark) * 1e-3
+                # C10 inside EOM mode: different stored phases => phase-jump gap (at least 2*rise_time) + fall time
+                proto = op[2] if len(op) > 2 else "min-delay"
+                prev = None
+                for cand in cs.slots[-2::-1]:
+                    if l1.is_pulse(cand) and not cs.is_detuned_delay(cand.type):
+                        prev = cand
+                        break
+                if prev is not None and proto != "no-delay" and cs.in_eom_mode(prev):
+                    chobj = cs.channel_obj
+                    need = smax(chobj.phase_jump_time, 2 * chobj.rise_time) + prev.type.fall_time(chobj, in_eom_mode=True)
+                    differ = NOT(facade._unwrap0(prev.type.phase) == facade._unwrap0(sl.type.phase))
+                    obs.append(("c10:eom_phase_jump_gap", IMPLIES(differ, sl.ti - prev.tf >= need)))
                 obs.append(("k4:pulse_phase_compensates_drift",
                             congruent(facade._unwrap0(sl.type.phase), prog + before_ref + expect)))
                 obs.append(("k4:pulse_ref_compensates_drift", congruent(ref_phase(), before_ref + expect)))
@@ -304,6 +316,8 @@ PROGRAMS = [
     [["enable", 1.0, 0.0, 0.0], ["eom_pulse", 0.0], ["delay"], ["eom_pulse", 1.0], ["disable"]],
     [["add"], ["enable", 2.0, 1.0, -1.0], ["eom_pulse", 0.0], ["eom_pulse", 0.5, "no-delay"], ["modify", 1.0, -1.0, 3.0], ["eom_pulse", 0.5], ["disable"], ["add"]],
     [["enable", 1.0, 0.0, -100.0], ["delay"], ["modify", 3.0, 0.0, 100.0], ["delay"], ["eom_pulse", 0.0], ["disable"]],
+    # same nominal phase, short idle gap in between: the drift correction changes the stored phase
+    [["enable", 2.0, 0.0, -1.0], ["eom_pulse", 0.5], ["delay"], ["eom_pulse", 0.5], ["eom_pulse", 0.5], ["delay"], ["delay"], ["eom_pulse", 0.5]],
     # new off-detuning exactly 0 after a non-zero one (both beams switched off, balanced light shifts)
     [["enable", 2.0, 1.0, -1.0], ["eom_pulse", 0.0], ["delay"], ["modify", 1.0, 0.0, 0.0], ["eom_pulse", 0.5], ["disable"]],
     [["add"], ["enable", 1.0, 0.0, 0.0], ["delay"], ["modify", 2.0, 3.0, -5.0], ["delay"], ["modify", 1.0, 0.0, 0.0], ["eom_pulse", 0.5], ["disable"]],
